@@ -12,7 +12,7 @@
    and the MINOR stage specification of C04 (score incl. phase term, admissibility, property clauses) is invariant under every strictly
    increasing position map (same-strand builds).
    For the major stage the evidence filter and candidate selection are covered as well (C13_major_stage_same_strand).
-   NOT proved: the same for the evidence filter of the minor stage and for the major/minor filters on opposite strands; beyond the hypothesis, and for the implementation as a whole, harness/c13.py decides by a two-build differential on
+   The evidence filter of the minor stage is covered too (C13_minor_filter_equivariant). NOT proved: the filters on opposite strands, and that the minor-stage instance is read from the filtered table the way MinorModel.inst records it (serialised from the implementation's objects); beyond the hypothesis, and for the implementation as a whole, harness/c13.py decides by a two-build differential on
    stage results and scores (shipped genes hg19/hg38, generated opposite-strand databases). *)
 From Aldy Require Import Base Consts Transport TransportProofs.
 From Aldy Require Filter MajorModel MajorSpec MajorTransportProofs Norm NormProofs MinorModel MinorSpec MinorTransportProofs MajorStageTransportProofs.
@@ -204,6 +204,17 @@ Theorem C13_major_filter_equivariant : forall (g : Z -> Z), (forall x y, g x = g
 Proof. exact MajorStageTransportProofs.major_cov_tr. Qed.
 Goal True. idtac "ASSUME C13_major_filter_equivariant". Abort.
 Print Assumptions C13_major_filter_equivariant.
+
+(* the evidence filter of the minor stage (minor.py default_filter_fn = the major filter restricted to the stage's variants /
+   allowed regions) commutes with the same maps, for any transported "allowed" predicate *)
+Theorem C13_minor_filter_equivariant : forall (g : Z -> Z), (forall x y, g x = g y -> x = y) ->
+  forall (pcn pcn' : Z -> Q), (forall x, pcn' (g x) = pcn x) ->
+  forall (allowed allowed' : Filter.mut -> bool), (forall m, allowed' (MajorStageTransportProofs.mtr g m) = allowed m) ->
+  forall (p : Filter.fparams) (c : Filter.cover),
+  Filter.minor_cov p pcn' allowed' (MajorStageTransportProofs.covmap g c) = MajorStageTransportProofs.covmap g (Filter.minor_cov p pcn allowed c).
+Proof. exact MajorStageTransportProofs.minor_cov_tr. Qed.
+Goal True. idtac "ASSUME C13_minor_filter_equivariant". Abort.
+Print Assumptions C13_minor_filter_equivariant.
 
 Theorem C13_major_stage_same_strand : forall (g : Z -> Z), (forall x y, g x = g y -> x = y) ->
   forall (c : consts) (I : MajorModel.inst),
